@@ -93,14 +93,29 @@ type Reader struct {
 	// before Gate is closed - a reader parked in Read on a stalled stream.
 	Gate   *vsched.Chan[struct{}]
 	GateAt int
+	// AfterGate, if set, is what the stalled Read and every later Read return once
+	// the gate was opened (no data any more): a connection whose read deadline was
+	// moved into the past when the scan was stopped keeps answering with a
+	// temporary timeout error.
+	AfterGate error
+	gone      bool
 }
 
 func (r *Reader) Read(p []byte) (int, error) {
 	if !r.BlockOnly || len(p) == 4 {
 		vsched.Yield("read")
 	}
+	if r.gone {
+		r.Reads++
+		return 0, r.AfterGate
+	}
 	if r.Gate != nil && len(p) == 4 && r.BlocksBegun == r.GateAt {
 		r.Gate.Recv()
+		if r.AfterGate != nil {
+			r.gone = true
+			r.Reads++
+			return 0, r.AfterGate
+		}
 	}
 	if r.OnRead != nil {
 		r.OnRead(r)
